@@ -186,6 +186,14 @@ func (w *world) handler(n *vnode.Node, sc *vnode.ServerConn, rec *vnode.ReqRec) 
 		return vnode.Reply{Msg: rows, CutAt: 5}
 	case "cutbody":
 		return vnode.Reply{Msg: rows, CutAt: frame.HeaderSize(rec.Req.Header.Version) + 7}
+	case "wrongver":
+		// a well-formed response whose header carries another protocol version (same header layout): the caller
+		// gets a protocol error, the connection stays usable and the id comes back
+		enc, err := frame.Encode(&frame.Response{Version: rec.Req.Header.Version - 1, Stream: rec.Stream, Msg: rows})
+		if err != nil {
+			panic(err)
+		}
+		return vnode.Reply{Raw: enc.Bytes()}
 	case "stallhdr":
 		// the first byte of the response header, a pause longer than the request timeout, then the rest
 		return vnode.Reply{Msg: rows, StallAt: 1, StallFor: lateDelay}
@@ -530,6 +538,15 @@ func (w *world) checkC01(got []result) {
 			if _, dDev, _ := vs.Deviations(); dDev == 0 {
 				vs.Failf("c01:response-lost:connection-closed-without-a-fault", "caller of %q got %v although the node answered it at once and nothing in this scenario ends the connection", r.label, r.err)
 			}
+		case cls == "timeout" && fate == "reply":
+			// the node wrote the whole response the moment the request arrived: without a timer deviation nothing but the
+			// driver losing the response can make the caller wait for its timeout
+			if nr := w.nodeRec(r.label); nr != nil && nr.Replied && nr.ReplyAt == nr.Time {
+				if _, dDev, _ := vs.Deviations(); dDev == 0 {
+					vs.Failf("c01:response-lost:timeout-although-answered-at-once", "caller of %q got %v although the node answered the request the moment it arrived (at %v)", r.label, r.err, nr.Time)
+				}
+			}
+		case fate == "wrongver" && strings.Contains(r.err.Error(), "unexpected protocol version"):
 		case cls == "timeout", cls == "conn-closed", cls == "no-streams" && c.freeIDs > 0:
 		case cls == "ctx-canceled":
 			if c.canceller < 0 || !strings.HasPrefix(r.label, fmt.Sprintf("c%dq", c.canceller)) {
@@ -596,7 +613,8 @@ func (w *world) checkC06(got []result, live *gocql.VerifLive) {
 			msg := r.err.Error()
 			// any error that closed the connection is the "connection closed" outcome
 			ok = strings.Contains(msg, "vnet:") || strings.Contains(msg, "EOF") || strings.Contains(msg, "closed") ||
-				(r.op == "b" && strings.Contains(msg, "frame build failure")) || live.ConnClosed()
+				(r.op == "b" && strings.Contains(msg, "frame build failure")) || live.ConnClosed() ||
+				(w.fateOf[r.label] == "wrongver" && strings.Contains(msg, "unexpected protocol version"))
 		}
 		if !ok {
 			vs.Failf("c06:unexpected-outcome", "request %q (op %s, fate %q) ended with %v", r.label, r.op, w.fateOf[r.label], r.err)
@@ -821,6 +839,7 @@ func connScenarios() []*cfgT {
 		{name: "v4-stalled-body-late-caller", props: "C01 C06", proto: 4, callers: [][]string{q(1), {"L"}}, canceller: -1, fates: []string{"reply", "stall", "late"}, t: [2]int{2, 3}},
 		{name: "v4-stalled-body-write-error", props: "C06", proto: 4, callers: [][]string{q(1), {"M"}}, canceller: -1, writeFault: "some", fates: []string{"reply", "stall"}, t: [2]int{2, 3}},
 		{name: "v4-stalled-body-write-error-no-request-timeout", props: "C06", proto: 4, callers: [][]string{q(1), {"M"}}, canceller: -1, writeFault: "some", noTimeout: true, fates: []string{"reply", "stall"}, t: [2]int{2, 3}},
+		{name: "v4-2x2-response-with-another-version", props: "C01 C06", proto: 4, callers: [][]string{q(2), q(2)}, canceller: -1, fates: []string{"reply", "wrongver", "late"}, t: [2]int{2, 3}},
 		{name: "v4-stalled-header-late-caller", props: "C01 C06", proto: 4, callers: [][]string{q(1), {"L"}}, canceller: -1, stayOpen: true, fates: []string{"reply", "stallhdr"}, t: [2]int{2, 3}},
 		{name: "v4-heartbeat-answered-with-error", props: "C01 C06", proto: 4, callers: [][]string{{"H"}, {"H"}}, canceller: -1, heartbeat: true, hbFates: []string{"supported", "error", "never"}, fates: []string{"late", "reply", "never"}, t: [2]int{2, 3}},
 		{name: "v2-stalled-body-late-caller-free2", props: "C01 C06", proto: 2, callers: [][]string{q(2), {"L"}}, freeIDs: 2, canceller: -1, fates: []string{"reply", "stall"}, t: [2]int{2, 3}},
